@@ -272,7 +272,7 @@ func drawEqual(t *rapid.T) Case {
 		b = plainStrCfg.Root().Draw(t, "b")
 	}
 	sp := gen.SpellCfg{WS: true, Shuffle: true}
-	return Case{A: strings.TrimLeft(gen.SpellWith(t, a, sp, "sa"), " \t\r\n"), B: strings.TrimLeft(gen.SpellWith(t, b, sp, "sb"), " \t\r\n")}
+	return Case{A: gen.SpellWith(t, a, sp, "sa"), B: gen.SpellWith(t, b, sp, "sb")}
 }
 
 func checkEqual(c Case) ev.Verdict {
